@@ -50,6 +50,12 @@ def eval_call(ex: Exec, node: ast.Call) -> SV:
     f = node.func
     if isinstance(f, ast.Name):
         name = f.id
+        if ex.spec and name in spec._TABLE and name in ("old", "at_entry", "at_call", "forall", "exists", "implies", "iff"):
+            # a program variable of the same name (mca.py has a local `old`) must not
+            # capture the specification vocabulary inside contract clauses
+            r = spec.spec_call(ex, name, node)
+            if r is not None:
+                return r
         if name in ex.locals:
             fn = ex.locals[name]
             return call_value(ex, fn, node)
